@@ -104,6 +104,11 @@ type Harness struct {
 	Srv *server.Server
 	ptr string
 
+	// InboxCap is the capacity of the request queue of calls made from now on
+	// (0 = 512). Worlds that start thousands of short calls set it low: under the
+	// race detector every freshly allocated KiB costs shadow-memory work.
+	InboxCap int
+
 	clock atomic.Int64
 
 	mu         sync.Mutex
@@ -216,7 +221,64 @@ type Call struct {
 	stallCh  chan struct{}
 	atStall  bool
 	consumed atomic.Int64 // requests the server's Recv has taken so far
+
+	// self-destruct point of the stream (a client that disappears during the
+	// start-up of the call), see StartSessionDying; "" = none
+	dieAt  string
+	nRecv  atomic.Int64 // Recv calls made by the server so far
+	nSend  atomic.Int64 // Send calls made by the server so far
+	diedAt atomic.Int64 // clock at which the stream cancelled itself (0 = not yet)
 }
+
+// DiePoints lists the points of a Session call's start-up at which a stream made
+// by StartSessionDying cancels its own context (the client goes away):
+//
+//	before-start  the context is cancelled before the server call starts
+//	recv1-pre     inside the first Recv, before the Init is read: Recv fails
+//	recv1-hand    inside the first Recv, as the Init is handed over: Recv succeeds
+//	              (like a real stream whose packet was already queued), the context
+//	              is cancelled when the server looks at it next
+//	recv2-pre     inside the second Recv (the call has registered, its read
+//	              goroutine asks for the next request): Recv fails
+//	send1-pre     inside the first Send (the first Opened / Closed frame): Send fails
+//	send1-post    inside the first Send: the frame is delivered, then the stream dies
+var DiePoints = []string{"before-start", "recv1-pre", "recv1-hand", "recv2-pre", "send1-pre", "send1-post"}
+
+// StartSessionDying is StartSession on a stream that cancels itself at the given
+// point of the call's start-up (one of DiePoints). The call counts as killed by
+// the harness from that moment on.
+func (h *Harness) StartSessionDying(src peer.ID, dst string, at string) *Call {
+	c := h.newCall(src, false)
+	c.Dst = dst
+	c.dieAt = at
+	c.Submit(&signaling.SessionRequest{Body: &signaling.SessionRequest_Init{Init: &signaling.SessionInit{PeerId: dst}}})
+	if at == "before-start" {
+		c.die()
+	}
+	go func() {
+		err := h.Srv.Session(&SessionStream{c: c})
+		c.finish(err)
+	}()
+	return c
+}
+
+// die cancels the stream from the inside (dying stream).
+func (c *Call) die() {
+	c.mu.Lock()
+	if !c.killed {
+		c.killed = true
+		c.killClock = c.H.Tick()
+		c.diedAt.Store(c.killClock)
+	}
+	c.mu.Unlock()
+	c.cancel()
+}
+
+// Died reports whether a dying stream has reached its point and cancelled itself.
+func (c *Call) Died() bool { return c.diedAt.Load() != 0 }
+
+// DieAt returns the self-destruct point of the stream ("" = none).
+func (c *Call) DieAt() string { return c.dieAt }
 
 func (c *Call) String() string {
 	if c.Listen {
@@ -227,8 +289,12 @@ func (c *Call) String() string {
 
 func (h *Harness) newCall(src peer.ID, listen bool) *Call {
 	ctx, cancel := context.WithCancel(context.WithValue(context.Background(), identKey{}, src))
+	icap := h.InboxCap
+	if icap <= 0 {
+		icap = 512
+	}
 	c := &Call{H: h, Listen: listen, Src: src.String(), ctx: ctx, cancel: cancel,
-		in: make(chan pkt, 512), done: make(chan struct{})}
+		in: make(chan pkt, icap), done: make(chan struct{})}
 	c.gate = h.Gate(c.Src)
 	h.mu.Lock()
 	c.Idx = len(h.calls)
@@ -401,7 +467,21 @@ func (c *Call) Returned() (bool, error) { c.mu.Lock(); defer c.mu.Unlock(); retu
 func (c *Call) AtGate() bool { c.mu.Lock(); defer c.mu.Unlock(); return c.atGate }
 
 // Outbox returns a copy of everything the server wrote so far.
-func (c *Call) Outbox() []Item { c.mu.Lock(); defer c.mu.Unlock(); return append([]Item(nil), c.out...) }
+func (c *Call) Outbox() []Item {
+	c.mu.Lock()
+	defer c.mu.Unlock()
+	return append([]Item(nil), c.out...)
+}
+
+// OutboxFrom returns a copy of what the server wrote from item i on.
+func (c *Call) OutboxFrom(i int) []Item {
+	c.mu.Lock()
+	defer c.mu.Unlock()
+	if i >= len(c.out) {
+		return nil
+	}
+	return append([]Item(nil), c.out[i:]...)
+}
 
 // Subs returns a copy of everything submitted so far.
 func (c *Call) Subs() []Sub { c.mu.Lock(); defer c.mu.Unlock(); return append([]Sub(nil), c.subs...) }
@@ -502,8 +582,22 @@ func (s *SessionStream) Recv() (*signaling.SessionRequest, error) {
 }
 func (s *SessionStream) RecvTo(m *signaling.SessionRequest) error { return s.MsgRecv(m) }
 func (s *SessionStream) MsgRecv(msg srpc.Message) error {
-	p, err := s.readOne()
-	if err != nil {
+	hand := false
+	if at := s.c.dieAt; at != "" {
+		switch n := s.c.nRecv.Add(1); {
+		case n == 1 && at == "recv1-pre", n == 2 && at == "recv2-pre":
+			s.c.die()
+		case n == 1 && at == "recv1-hand":
+			hand = true
+		}
+	}
+	var p pkt
+	var err error
+	if hand {
+		// the Init was queued before the call started: take it, then die
+		p = <-s.c.in
+		s.c.die()
+	} else if p, err = s.readOne(); err != nil {
 		return err
 	}
 	// the packet buffer belongs to the reader from here on (as with a real
@@ -525,6 +619,18 @@ func (s *SessionStream) MsgRecv(msg srpc.Message) error {
 // aliases a server-side object.
 func (s *SessionStream) Send(m *signaling.SessionResponse) error { return s.MsgSend(m) }
 func (s *SessionStream) MsgSend(msg srpc.Message) error {
+	post := false
+	if at := s.c.dieAt; at != "" {
+		switch n := s.c.nSend.Add(1); {
+		case n == 1 && at == "send1-pre":
+			s.c.die()
+		case n == 1 && at == "send1-post":
+			post = true
+		}
+	}
+	if post {
+		defer s.c.die()
+	}
 	if err := s.c.ctx.Err(); err != nil {
 		return context.Canceled
 	}
@@ -552,13 +658,13 @@ func (s *SessionStream) MsgSend(msg srpc.Message) error {
 	return s.c.send(it)
 }
 func (s *SessionStream) SendAndClose(m *signaling.SessionResponse) error { return s.Send(m) }
-func (s *SessionStream) CloseSend() error                               { return nil }
-func (s *SessionStream) Close() error     { s.c.cancel(); return nil }
+func (s *SessionStream) CloseSend() error                                { return nil }
+func (s *SessionStream) Close() error                                    { s.c.cancel(); return nil }
 
 // ListenStream is the hand-written signaling.SRPCSignaling_ListenStream.
 type ListenStream struct{ c *Call }
 
-func (s *ListenStream) Context() context.Context { return s.c.ctx }
+func (s *ListenStream) Context() context.Context               { return s.c.ctx }
 func (s *ListenStream) Send(m *signaling.ListenResponse) error { return s.MsgSend(m) }
 func (s *ListenStream) MsgSend(msg srpc.Message) error {
 	if err := s.c.ctx.Err(); err != nil {
@@ -594,7 +700,11 @@ var (
 )
 
 // Calls returns all calls made so far.
-func (h *Harness) Calls() []*Call { h.mu.Lock(); defer h.mu.Unlock(); return append([]*Call(nil), h.calls...) }
+func (h *Harness) Calls() []*Call {
+	h.mu.Lock()
+	defer h.mu.Unlock()
+	return append([]*Call(nil), h.calls...)
+}
 
 func (h *Harness) counters() (unreturned int, outVersion int64, inboxEmpty bool) {
 	h.mu.Lock()
